@@ -10,6 +10,8 @@ def model_check(ctx, thorough):
     if thorough:
         C.run_tlc(ctx, "Client", "Client3.cfg", workers=C.NCPU, timeout=3000)
         C.run_tlc(ctx, "Client", "ClientResumed.cfg", workers=C.NCPU, timeout=1800)
+        # everything at once: rotation, an item nobody waits for, a close, object and vector results (1.7 M states)
+        C.run_tlc(ctx, "Client", "ClientAll.cfg", workers=C.NCPU, timeout=3000)
     return mc
 
 
